@@ -83,6 +83,16 @@ pub fn queue_strategy() -> BoxedStrategy<Value> {
         .boxed()
 }
 
+/// Queue payload: a value with an observable destructor, so that an element that is moved out
+/// of the queue twice (or never) shows up as dropped twice (or never).
+pub struct Tok(u64);
+static TOK_DROPS: Mutex<BTreeMap<u64, u32>> = Mutex::new(BTreeMap::new());
+impl Drop for Tok {
+    fn drop(&mut self) {
+        *TOK_DROPS.lock().unwrap().entry(self.0).or_insert(0) += 1;
+    }
+}
+
 #[derive(Clone, Debug)]
 struct QRec {
     thread: usize,
@@ -158,14 +168,14 @@ fn linearizable(h: &[QRec], init: &[u64]) -> bool {
 pub fn exec_c17(_prop: &str, v: &Value) -> Report {
     let case: QCase = serde_json::from_value(v.clone()).expect("bad QCase");
     let n = case.threads.len().max(1);
-    let q: &'static VQueue<u64> = Box::leak(Box::new(VQueue::new()));
+    let q: &'static VQueue<Tok> = Box::leak(Box::new(VQueue::new()));
     let mut init = Vec::new();
     {
         let g = cs();
         for i in 0..case.prefill as u64 {
             // values are unique; low values so that predicates sometimes accept them
             let v = 8 * i + 3;
-            q.push(v, &g);
+            q.push(Tok(v), &g);
             init.push(v);
         }
     }
@@ -189,7 +199,7 @@ pub fn exec_c17(_prop: &str, v: &Value) -> Report {
                             seq += 1;
                             let low = ((seq * 37 + t as u64 * 11) % 32) * 8;
                             let val = low + 256 * (seq * 4 + t as u64 + 1);
-                            q.push(val, &g);
+                            q.push(Tok(val), &g);
                             QHIST.lock().unwrap().push(QRec { thread: t, k: op.k, arg: val, res: None, inv, resp: tick() });
                             drop(g);
                             sched::op_done();
@@ -197,12 +207,12 @@ pub fn exec_c17(_prop: &str, v: &Value) -> Report {
                         }
                         QK::TryPop => {
                             arg = 0;
-                            res = q.try_pop(&g);
+                            res = q.try_pop(&g).map(|t| t.0);
                         }
                         QK::TryPopIf => {
                             arg = 16 * op.a as u64;
                             // the predicate looks at the low byte, so that it depends on the element
-                            res = q.try_pop_if(|v| (*v % 256) < arg, &g);
+                            res = q.try_pop_if(|v| (v.0 % 256) < arg, &g).map(|t| t.0);
                         }
                     }
                     let resp = tick();
@@ -224,7 +234,7 @@ pub fn exec_c17(_prop: &str, v: &Value) -> Report {
     let mut drained = Vec::new();
     {
         let g = cs();
-        while let Some(v) = q.try_pop(&g) {
+        while let Some(v) = q.try_pop(&g).map(|t| t.0) {
             drained.push(v);
             if drained.len() > 1000 {
                 violation("C17", "O-queue", "O-queue/drain-endless", "draining the queue does not terminate");
@@ -253,6 +263,17 @@ pub fn exec_c17(_prop: &str, v: &Value) -> Report {
     b.sort();
     if a != b {
         violation("C17", "O-queue", "O-queue/lost-or-duplicated", &format!("pushed {:?} but popped+drained {:?}; history {:?}", a, b, hist));
+    }
+    // every element that was pushed has by now been handed out exactly once and dropped by its
+    // receiver: its destructor must have run exactly once
+    {
+        let drops = TOK_DROPS.lock().unwrap().clone();
+        for v in &pushed {
+            let n = drops.get(v).cloned().unwrap_or(0);
+            if n != 1 {
+                violation("C17", "O-queue", if n > 1 { "O-queue/element-dropped-twice" } else { "O-queue/element-never-dropped" }, &format!("element {} was pushed once and popped once, but its destructor ran {} times; history {:?}", v, n, hist));
+            }
+        }
     }
     // conditional pops must satisfy their predicate
     for r in &hist {
